@@ -6,6 +6,7 @@ CONSTANTS
   Funder = "s0"
   InitialUnits <- mcInitialUnitsT
   McOps <- ReducedOps
+  SimOps <- ReducedOps
   Record = FALSE
   Weight = 1
   Depth = 0
